@@ -317,12 +317,20 @@ def run_shards(module, shard_args, timeout, hashseed='0', extra_env=None,
             json.dump(a, f)
         ef = open(err, 'w')
         hs = hashseed(i) if callable(hashseed) else hashseed
+        # temporary directories of the code under test (tmpfiles.init) live
+        # below the scratch directory, which is removed at the end
+        tmp = os.path.join(scratch, f'tmp{i}')
+        os.makedirs(tmp, exist_ok=True)
+        env = child_env(extra_env, hs)
+        env.setdefault('TMPDIR', tmp)
+        if extra_env is None or 'TMPDIR' not in extra_env:
+            env['TMPDIR'] = tmp
         p = subprocess.Popen(
             [PY, '-m', 'vlib.shardmain', module, inp, out],
             stdout=ef,
             stderr=subprocess.STDOUT,
             stdin=subprocess.DEVNULL,
-            env=child_env(extra_env, hs),
+            env=env,
             cwd=VERIF,
             start_new_session=True)
         running.append((i, a, p, time.time(), out, err, ef))
